@@ -18,7 +18,7 @@ function, method (with receiver kind), package variable and constant, its numeri
 package variables it reads and its writes through parameters or the receiver (including in-place
 `sort.*`/`copy`/`append`). The entries behind the digest are in `shape_expected.txt` and in a
 comment of the generated file. -/
-def stateC17 : List (String × String) := [("globals:scale", ""), ("globalwrites:scale", ""), ("fields:scale.Linear", "Min:float64 Max:float64 Base:int Clamp:bool"), ("fields:scale.Log", "private:struct{} Min:float64 Max:float64 Base:int Clamp:bool"), ("fields:scale.TickOptions", "Max:int MinLevel:int MaxLevel:int"), ("fields:scale.linearTicker", "s:*Linear roundOut:bool"), ("fields:scale.logTicker", "s:*Log roundOut:bool"), ("shape:C17", "n=33 fnv64a=cad1536e6170f6e3")]
+def stateC17 : List (String × String) := [("globals:scale", ""), ("globalwrites:scale", ""), ("fields:scale.Linear", "Min:float64 Max:float64 Base:int Clamp:bool"), ("fields:scale.Log", "private:struct{} Min:float64 Max:float64 Base:int Clamp:bool"), ("fields:scale.TickOptions", "Max:int MinLevel:int MaxLevel:int"), ("fields:scale.linearTicker", "s:*Linear roundOut:bool"), ("fields:scale.logTicker", "s:*Log roundOut:bool"), ("shape:C17", "n=33 fnv64a=22f0e81abd56c74c")]
 
 /-- the source has exactly the package-level variables, writers and struct fields the model accounts for -/
 theorem state_C17 : holdsAll stateC17 = true := by decide +kernel
